@@ -768,6 +768,23 @@ def ring_analyse(facts, rep):
                     check_rb6(ctx, add, label, rt, base)
                     fn = RING_OPS.get(base)
                     if fn is not None: fn(ctx, add, label, rt, site)
+                    # an argument taken by reference may refer to an element of this very buffer (`rb.push(rb.back())`, which the standard containers
+                    # allow): it must not be read after the block it may live in has been released
+                    rparams = {p_['decl']: p_ for p_ in (f.d.get('params') or []) if (p_.get('ctype') or '').rstrip().endswith('&') and elem_type(Cn) and
+                               (p_.get('ctype') or '').replace('const ', '').replace('&', '').strip() in (T, T.replace('std::basic_string<char>', 'std::string'))}
+                    if rparams:
+                        released = False
+                        for n_, p_ in ctx.ev:
+                            if p_[0] == 'free' and isinstance(p_[1], Ptr) and p_[1].base == 'data0': released = True
+                            elif p_[0] == 'realloc' and isinstance(p_[1], Ptr) and p_[1].base == 'data0': released = True
+                            elif released and p_[0] == 'elem' and p_[1] in ('construct', 'assign'):
+                                srcs = p_[3] if isinstance(p_[3], (list, tuple)) else [p_[3]]
+                                hit = next((rparams[x.loc[-1]] for x in srcs if isinstance(x, Ref) and isinstance(x.loc, tuple) and x.loc[0] == 'l' and x.loc[-1] in rparams), None)
+                                if hit is not None:
+                                    for r__ in ('RB.8', 'RB.2'): add(r__, False, f'{label} {rt}: a by-reference argument is read before the storage it may refer to is released', n_.shortloc(),
+                                        f'`{hit["name"]}` ({hit["ctype"]}) is read to build the new element after the old block has been released (the buffer grew first): called with an element of this buffer — '
+                                        f'`rb.{base}(rb.back())` — the reference points into freed storage: the element that is inserted is not the value that was passed', key=f'{r__}|arg-after-release|{base}')
+                                    break
                     if base not in _RING_TABLE and is_class and not (f.d.get('ctor') or f.d.get('dtor') or f.d.get('copyassign') or f.d.get('moveassign')):
                         # a mutator outside the operation table (an erase, a truncate, a clear): whatever it does, an element that leaves the live
                         # range [0, size) was destroyed or moved out on the way
